@@ -326,6 +326,42 @@ def run(tier: str, seed: int) -> int:
         terms_m.append(tm_)
         metas.append((sub, src, recs_b, recs_m))
 
+    # ---- variables that SHARE objects (outside the Gallina value model): the two real engines step by step, with undo /
+    # redo / the same choice again, so that every restore point of the fork must keep the sharing structure as the main
+    # engine's does (the fork has its own copy of _copy_state and GameSnapshot)
+    stats["shared_objects"] = 0
+    for i in range(25 if tier == "quick" else 250):
+        sub = rng.randrange(10 ** 9)
+        r = random.Random(sub)
+        g = G.Gen(r, G.Profile(browser_subset=True, hooks=0.0, join=0.0, params=0.3, jumps=0.3, inplace=1.0, faults=0.0, loops=0.4))
+        out = []
+        for l in g.source().split("\n"):
+            out.append(l)
+            if l == "~ hk = 0":
+                out += ["~ ys = xs", "~ box = {'items': xs, 'table': d}", "~ d2 = d", "~ pair = [xs, xs]"]
+            elif l.startswith("[") and l.endswith("]"):
+                out.append("Alias {ys} {box['items']} {box['table']} {d2} {pair}")
+        src = "\n".join(out)
+        try:
+            story = R.compile_story(src)
+        except Exception:
+            continue
+        ops = []
+        for _ in range(r.randint(3, 8)):
+            ops.append(("choose_valid", r.randint(0, 5)))
+            if r.random() < 0.5:
+                ops += r.choice([[("undo",), ("choose_valid", r.randint(0, 5))], [("undo",), ("redo",)], [("undo",)]])
+        both = run_both(story, ops, r)
+        stats["shared_objects"] += 1
+        for k, (op, om, ob, vm, vb, dm, db) in enumerate(both):
+            if om[:2] != ob[:2] or clean(vm) != clean(vb):
+                diff = [kk for kk in clean(vm) if clean(vm)[kk] != clean(vb).get(kk)]
+                chk.report("browser-engine-differs:shared-objects:" + ",".join(sorted(diff)),
+                           f"step {k}: main {om} vs browser {ob}, differing fields {diff} (variables share objects)",
+                           {"subseed": sub, "story_source": src, "ops": [x[0] for x in both[1:k + 1]]})
+                break
+        chk.count(("shared", sub), True)
+
     def replay(b, which):
         sub, src, recs_b, recs_m = metas[b]
         recs = recs_b if which == "browser" else recs_m
